@@ -50,8 +50,14 @@ int mcount_setup_trampoline(struct mcount_dynamic_info *mdi)
 					MAP_FIXED_NOREPLACE | MAP_PRIVATE | MAP_ANONYMOUS, -1, 0);
 
 		if (trampoline_check != (void *)mdi->trampoline) {
-			pr_err("could not map trampoline at desired location %#lx, got %#lx: %m\n",
+			/* do not kill the traced program: leave this module unpatched */
+			pr_dbg("could not map trampoline at desired location %#lx, got %#lx: %m\n",
 			       mdi->trampoline, (uintptr_t)trampoline_check);
+			if (trampoline_check != MAP_FAILED)
+				munmap(trampoline_check, PAGE_SIZE);
+			mdi->text_size -= PAGE_SIZE;
+			mdi->trampoline = 0;
+			return -1;
 		}
 	}
 
